@@ -2,11 +2,21 @@ package main
 
 import (
 	"fmt"
+	"math"
+
+	"github.com/iotaledger/hive.go/app/daemon"
 
 	"verifharness/hx"
 )
 
 var orderPool = []int{-7, -3, -1, 0, 0, 1, 2, 2, 5, 9}
+
+// extremePool: orders at the ends of `int` (with ties there) mixed with small ones: differences of two orders
+// overflow, so a comparator that subtracts instead of comparing sorts them wrongly.
+var extremePool = []int{math.MaxInt, math.MaxInt, math.MaxInt - 1, math.MinInt, math.MinInt, math.MinInt + 1, -2, -1, 0, 2, 5}
+
+// The shutdown order is a Go `int` (the model orders by Lean `Int`; the generators cover both ends of `int`).
+var _ func(*daemon.OrderedDaemon, string, daemon.WorkerFunc, ...int) error = (*daemon.OrderedDaemon).BackgroundWorker
 
 // corpus: hand-written histories that run first (forced windows, the Run finding, the unit-test shapes).
 var corpus = [][]string{
@@ -28,6 +38,15 @@ var corpus = [][]string{
 	{"mode seq", "sdw", "isstopped", "bw 1 0 c", "start", "isrunning"},
 	// ties, negatives, gaps, early finishers, re-registration under another order
 	{"mode seq", "bw 1 -3 c", "bw 2 5 c", "bw 3 5 c", "bw 4 0 x", "bw 5 -3 c", "start", "workers", "fin 2", "bw 2 -7 c", "bw 6 9 c", "workers", "sdw", "seenlog"},
+	// orders at the ends of int: MaxInt / MinInt with ties, next to small orders (differences overflow)
+	{"mode seq", "bw 1 9223372036854775807 c", "bw 2 -2 c", "bw 3 2 c", "bw 4 -9223372036854775808 c", "bw 5 9223372036854775807 c",
+		"bw 6 -9223372036854775807 c", "bw 7 9223372036854775806 c", "bw 8 -9223372036854775808 c", "start", "workers", "sdw", "seenlog"},
+	{"mode seq", "bw 1 2 c", "bw 2 -9223372036854775808 c", "start", "bw 3 9223372036854775807 c", "bw 4 -2 c", "workers", "fin 3",
+		"bw 3 -9223372036854775807 c", "workers", "sdw", "seenlog"},
+	{"bw 1 9223372036854775807 g", "bw 2 -2 c", "bw 3 -9223372036854775808 h", "bw 4 -9223372036854775808 h", "bw 5 2 s", "start",
+		"waitstarted 1", "go sdw", "waitseen 1", "sleep 20", "kick 1", "join"},
+	{"bw 1 2 g", "bw 2 -9223372036854775808 c", "bw 3 9223372036854775807 x", "start", "waitstarted 1", "go sdw", "go sdw", "waitseen 1",
+		"sleep 20", "kick 1", "join"},
 	// equal-order workers that hold until their peers are cancelled; a gated top group
 	{"bw 1 5 h", "bw 2 5 h", "bw 3 5 h", "bw 4 2 h", "bw 5 2 s", "bw 6 9 g", "start", "go sdw", "go sdw", "waitseen 6", "sleep 10", "kick 6", "join"},
 }
@@ -41,8 +60,12 @@ func genSeq(rng *hx.Rng) []string {
 
 		return "c"
 	}
+	pool := orderPool
+	if rng.Chance(1, 4) {
+		pool = extremePool
+	}
 	bw := func(maxName int) string {
-		return fmt.Sprintf("bw %d %d %s", rng.Range(1, maxName), hx.Pick(rng, orderPool), kind())
+		return fmt.Sprintf("bw %d %d %s", rng.Range(1, maxName), hx.Pick(rng, pool), kind())
 	}
 	for i, n := 0, rng.Range(0, 6); i < n; i++ {
 		s = append(s, bw(5))
@@ -96,8 +119,11 @@ func genConc(rng *hx.Rng) []string {
 	var s []string
 	kinds := []string{"c", "c", "s", "s", "h", "h", "g", "x"}
 	orders := orderPool
-	if rng.Chance(1, 3) { // few distinct orders: many ties
+	switch x := rng.Intn(12); {
+	case x < 4: // few distinct orders: many ties
 		orders = []int{hx.Pick(rng, orderPool), hx.Pick(rng, orderPool)}
+	case x < 7: // the ends of int
+		orders = extremePool
 	}
 	bw := func(maxName int) string {
 		return fmt.Sprintf("bw %d %d %s", rng.Range(1, maxName), hx.Pick(rng, orders), hx.Pick(rng, kinds))
